@@ -628,6 +628,17 @@ class C11(Spec):
                        {'op': 'show', 'k': 0}, {'op': 'show', 'k': 2}, {'op': 'show', 'k': 3},
                        {'op': 'concat', 'j': 30, 'dim': 'time', 'ks': [1, 2], 'expect': 'reject'}]
                 yield {'kind': 'isolation', 'arrs': [arr], 'ops': ops}
+            # ... and in the other direction: tagging the RESULT of a concat leaves the pieces it was made from
+            # alone, so the same adjacent pieces still concatenate to the original afterwards
+            arr = self.mk_arr([2, 2, 4][-nd:], s0=5, fs=(432, 1), md0=3)
+            it1, it2 = ['s', None, 2, None], ['s', 2, None, None]
+            ops = [{'op': 'get', 'k': 0, 'j': 1, 'idx': {'t': 'tup', 'items': [['e'], it1]}},
+                   {'op': 'get', 'k': 0, 'j': 2, 'idx': {'t': 'tup', 'items': [['e'], it2]}},
+                   {'op': 'concat', 'j': 30, 'dim': 'time', 'ks': [1, 2], 'expect': 'restore:0'},
+                   {'op': 'set', 'k': 30, 'field': 'md', 'value': 66, 'inplace': True},
+                   {'op': 'show', 'k': 1}, {'op': 'show', 'k': 2}, {'op': 'show', 'k': 0},
+                   {'op': 'concat', 'j': 31, 'dim': 'time', 'ks': [1, 2], 'expect': 'restore:0'}]
+            yield {'kind': 'isolation', 'arrs': [arr], 'ops': ops}
 
         # arithmetic / copies on fresh arrays
         for nd in (1, 2, 3):
